@@ -96,6 +96,29 @@ def list_schemes() -> list[str]:
     return [s.value for s in Scheme]
 
 
+def _diff(expr: sympy.Expr, symbol: sympy.Symbol) -> sympy.Expr:
+    """Differentiate ``expr`` with respect to ``symbol``.
+
+    sympy leaves the derivatives of ``floor``, ``ceiling`` and ``Mod`` unevaluated
+    (and they cannot be printed). They are piecewise constant respectively piecewise
+    linear, so differentiate with ``floor`` / ``ceiling`` held fixed and
+    ``Mod(u, c)`` written as ``u - c*floor(u/c)``.
+    """
+    if not expr.has(sympy.floor, sympy.ceiling, sympy.Mod):
+        return expr.diff(symbol)
+
+    hidden: dict[sympy.Dummy, sympy.Expr] = {}
+
+    def hide(e):
+        dummy = sympy.Dummy()
+        hidden[dummy] = e
+        return dummy
+
+    smooth = expr.replace(sympy.Mod, lambda u, c: u - c * sympy.floor(u / c))
+    smooth = smooth.replace(lambda e: isinstance(e, (sympy.floor, sympy.ceiling)), hide)
+    return smooth.diff(symbol).xreplace(hidden)
+
+
 def fraction_numerator_is_nonzero(expr):
     """Perform a very cheap check to detect if a fraction is definitely non-zero."""
 
@@ -247,7 +270,7 @@ def hybrid_rush_larsen(
         if not isinstance(x, atoms.StateDerivative):
             continue
 
-        expr_diff = x.expr.diff(x.state.symbol)
+        expr_diff = _diff(x.expr, x.state.symbol)
         state_is_stiff = x.state.name in stiff_states_set
 
         if _verif.enabled():
@@ -352,7 +375,7 @@ def generalized_rush_larsen(
         if not isinstance(x, atoms.StateDerivative):
             continue
 
-        expr_diff = x.expr.diff(x.state.symbol)
+        expr_diff = _diff(x.expr, x.state.symbol)
         if _verif.enabled():
             _verif.emit(
                 "SchemeDecide",
